@@ -17,9 +17,29 @@ def bus_jobs(tier):
     return js
 
 
+from props import C02 as _c02
+
+SAVE_REDIR = dict(_c02.REDIR)
+SAVE_REDIR.update({
+    "github.com/sourcenetwork/defradb/internal/core/block.putBlock": "vPutBlockEnv",
+    "github.com/sourcenetwork/defradb/internal/core/block.GetFromBytes": "vGetFromBytes",
+    "(github.com/sourcenetwork/defradb/client.FieldValue).Bytes": "vFieldValueBytes",
+})
+SAVE_OVR = dict(_c02.OVR)
+SAVE_OVR["github.com/sourcenetwork/defradb/internal/core/block.BlockSchema"] = "opaque"
+SAVE_FILES = ["zz_verif_env.go", "zz_verif_merge.go", "zz_verif_c07uniq.go", "zz_verif_save.go"]
+
+
+def save_jobs(tier):
+    return [{"id": f"O3.save.branchable{b}", "func": "VerifH_S1_Save", "conf": {"branchable": b, "faults": 0, "dag": "", "orders": "all", "shortid": 0},
+             "map_order": True, "_obligation": "O3", "_covers": ["saved"], "unwind": 80} for b in (0, 1)]
+
+
+SAVE_SUITE = dict(_c02.SUITE, name="save", jobs=save_jobs, redirects=SAVE_REDIR, overrides=SAVE_OVR, files=SAVE_FILES)
+
 PROPERTY = {
     "id": "C20",
-    "suites": [{"name": "bus", "pkg": "event", "files": ["zz_verif_c20.go"], "common": ["intrinsics"], "jobs": bus_jobs, "unwind": 200,
+    "suites": [SAVE_SUITE, {"name": "bus", "pkg": "event", "files": ["zz_verif_c20.go"], "common": ["intrinsics"], "jobs": bus_jobs, "unwind": 200,
                 "witnesses": {"quick": 16, "thorough": 48}},
                {"name": "datastore", "pkg": "internal/datastore", "files": ["zz_verif_txn.go"], "common": ["intrinsics", "kvmodel"], "jobs": txn_jobs}],
     "bounds": {"bus": "1-3 subscribers with any subset of up to 3 event names and * (wildcard listed first or last), 2-3 publishes of symbolic names, each subscriber subscribes at any position and unsubscribes at any later one or never, every rotation of every map iteration; event buffers larger than the number of messages", "callbacks": "<= 2 each of success/error/discard", "commit outcome": "symbolic"},
